@@ -646,7 +646,9 @@ func (s *Session) readCompressed(rw io.ReadWriter, p *Proposal) (err error) {
 
 		switch c {
 		case _CHRSTX:
-			c, _ := s.rd.ReadByte()
+			if c, err = s.rd.ReadByte(); err != nil {
+				return err
+			}
 			length := int(c)
 			if length == 0 {
 				length = 256
@@ -663,7 +665,10 @@ func (s *Session) readCompressed(rw io.ReadWriter, p *Proposal) (err error) {
 				}
 			}
 		case _CHREOT:
-			c, _ = s.rd.ReadByte()
+			c, err = s.rd.ReadByte()
+			if err != nil {
+				return err
+			}
 			ourChecksum = (ourChecksum + int(c)) % 256
 			if ourChecksum != 0 {
 				return errors.New(`Bad checksum`)
